@@ -67,13 +67,16 @@ prop("C17", [
     dict(engine="verus", unit="raser", fns=["serialise_router_advertisement", "clamp_u16", "clamp_u32", "prefix_mask", "pref64_plc", "pref64_prefixlen",
                                              "Serialise::serialise", "Serialise::len"]),
     dict(engine="kani", sets=["radv_ser"]),
+    # what goes into the advertisement: tri-state defaults, $self6, prefixes, header fields; discharges the serialiser's precondition
+    dict(engine="verus", unit="rabuild", fns=["RaAdvService::build_announcement_pure", "NDOptions::add_option"]),
     # "null suppressing an option" at the loader: tri-state keys of an interface (R9 slices of parse_interface arms)
     dict(engine="verus", unit="configleaf", fns=["ConfigValue::from_option", "arm_captive_portal", "arm_lifetime", "parse_duration", "parse_string"]),
 ], explanation="the octets produced by icmppkt::serialise_router_advertisement equal, for every RtrAdvertisement value and any number of options, the RFC 4861/8106/8781/8910 encoding of the (clamped) values; message length a multiple of 8; each option 8 x its length octet long",
     assumptions=["the six SerialiseInto impls append exactly the big-endian octets (assumed in Verus; checked by the Kani set radv_ser: scalars and Ipv6Addr complete, byte slices / str bounded to 3 / 2 octets)",
                  "str operations of the DNSSL arm (strip_suffix, split('.'), len, dnssl_name_ok's iterator chain) and slice::chunks are opaque stubs with their std meaning (split: labels and dots add up to the name)",
                  "SourceLLAddr options fill whole 8-octet units (precondition; the only producer, build_announcement_pure, passes a 6-octet Ethernet address -- type [u8; 6])",
-                 "build_announcement (async, netinfo) and the YAML loader of radv/config.rs are not under contract"])
+                 "build_announcement (async, netinfo: choice of the interface address and MTU) and the YAML loader of radv/config.rs beyond the sliced tri-state arms are not under contract",
+                 "ConfigValue::{unwrap_or, always_unwrap_or} and `.as_ref().or(..)` are stubs with their match-table meaning in unit rabuild (Clone structural)"])
 
 prop("C18", [
     dict(engine="verus", unit="poolschema"),
